@@ -184,17 +184,30 @@ def package_types(text):
     fm = re.search(r"impl\s+FromStr\s+for\s+PackageType\s*\{.*?fn\s+from_str\s*\(\s*(\w+)\s*:\s*&str\s*\)\s*->\s*Result<\s*Self\s*,\s*Self::Err\s*>\s*\{", text, re.S)
     if not fm:
         raise TranslateError("PackageType::from_str not found")
-    param = fm.group(1)
-    i, depth = fm.end(), 1
-    while i < len(text) and depth:
-        depth += {"{": 1, "}": -1}.get(text[i], 0)
-        i += 1
-    body = re.sub(r"//[^\n]*", "", text[fm.end():i - 1])
-    body = re.sub(r"\s+", "", body)
-    lookups = re.findall(re.escape(table) + r"\.get\(&UniCase::(?:new|unicode)\(" + re.escape(param) + r"\)\)", body)
-    uses = re.findall(r"(?<![A-Za-z0-9_])" + re.escape(param) + r"(?![A-Za-z0-9_])", body)
-    if len(lookups) != 1 or len(uses) != 1:
-        raise TranslateError("PackageType::from_str is no longer (only) the table lookup: %s" % body[:200])
+    def body_of(start):
+        i, depth = start, 1
+        while i < len(text) and depth:
+            depth += {"{": 1, "}": -1}.get(text[i], 0)
+            i += 1
+        return re.sub(r"\s+", "", re.sub(r"//[^\n]*", "", text[start:i - 1]))
+
+    # ... or `from_str` hands the parameter, verbatim and exactly once, to ONE other function of this file that takes a
+    # single `&str` (`Self::try_from(s)`, `PackageType::lookup(value)` ...), whose body is held to the same rule (at most
+    # four links): the answer is still a fixed function of one table lookup of the unchanged string
+    param, body, chain = fm.group(1), body_of(fm.end()), ["from_str"]
+    while True:
+        lookups = re.findall(re.escape(table) + r"\.get\(&UniCase::(?:new|unicode)\(" + re.escape(param) + r"\)\)", body)
+        uses = re.findall(r"(?<![A-Za-z0-9_])" + re.escape(param) + r"(?![A-Za-z0-9_])", body)
+        if len(lookups) == 1 and len(uses) == 1:
+            break
+        cm = re.search(r"(?:Self|PackageType|<[^<>()]*(?:<[^<>()]*>)?[^<>()]*>)::(\w+)\(" + re.escape(param) + r"\)", body)
+        if len(uses) != 1 or not cm or len(chain) > 4 or cm.group(1) in chain:
+            raise TranslateError("PackageType::from_str is no longer (only) the table lookup: %s" % body[:200])
+        defs = list(re.finditer(r"fn\s+" + re.escape(cm.group(1)) + r"\s*\(\s*(\w+)\s*:\s*&(?:'\w+\s+)?str\s*\)[^{;]*\{", text))
+        if len(defs) != 1:
+            raise TranslateError("PackageType::from_str calls %s, of which this file has %d definitions taking one &str: %s" % (cm.group(1), len(defs), body[:200]))
+        chain.append(cm.group(1))
+        param, body = defs[0].group(1), body_of(defs[0].end())
     return variants, phf
 
 
